@@ -38,6 +38,9 @@ N22 if True: A else: B -> A;  if False: A else: B -> B     (after N11: code unde
 N23 assert <expression without effects>  ->  nothing
 N24 opts = frozenset(kw) / set(kw) / tuple(kw) / list(kw) / kw.keys()  ...  k in opts   ->   k in kw      (kw the ** dictionary, never written)
     kw = dict(kw)  ->  nothing      (the ** dictionary is the function's own already)
+N25 try: x = d[k]  except KeyError: x = D   ->   x = D; if k in d: x = d[k]      (d a name, k a constant or a name, D simple)
+N26 try: d[k] += v  except KeyError: d[k] = v'   ->   if k in d: d[k] += v  else: d[k] = v'     (then N15);  likewise
+    try: d[k].append(x)  except KeyError: d[k] = [x]
 N18 imports of package modules under another name (`from . import trees as T`, `import trees.trees as T`) and direct imports
     of their functions / constants (`from .trees import children`)  ->  `from . import trees` and `trees.children`  (scopes that
     bind the name themselves are left alone)
@@ -445,6 +448,53 @@ def _n24_kwsets(func):
     return changed
 
 
+def _n25_trykey(st):
+    if not (isinstance(st, ast.Try) and len(st.body) == 1 and len(st.handlers) == 1 and not st.orelse and not st.finalbody):
+        return None
+    b, h = st.body[0], st.handlers[0]
+    if not (isinstance(b, ast.Assign) and len(b.targets) == 1 and isinstance(b.targets[0], ast.Name)
+            and isinstance(b.value, ast.Subscript) and isinstance(b.value.value, ast.Name)
+            and isinstance(b.value.slice, (ast.Constant, ast.Name))):
+        return None
+    if not (isinstance(h.type, ast.Name) and h.type.id == 'KeyError' and h.name is None and len(h.body) == 1):
+        return None
+    d = h.body[0]
+    if not (isinstance(d, ast.Assign) and len(d.targets) == 1 and isinstance(d.targets[0], ast.Name)
+            and d.targets[0].id == b.targets[0].id and _simple_default(d.value)):
+        return None
+    if b.targets[0].id in _names(b.value) or b.targets[0].id in _names(d.value):
+        return None
+    test = _loc(ast.Compare(left=copy.deepcopy(b.value.slice), ops=[ast.In()], comparators=[copy.deepcopy(b.value.value)]), st)
+    return [_loc(copy.deepcopy(d), st), _loc(ast.If(test=test, body=[copy.deepcopy(b)], orelse=[]), st)]
+
+
+def _n26_trykey_update(st):
+    if not (isinstance(st, ast.Try) and len(st.body) == 1 and len(st.handlers) == 1 and not st.orelse and not st.finalbody):
+        return None
+    b, h = st.body[0], st.handlers[0]
+    if not (isinstance(h.type, ast.Name) and h.type.id == 'KeyError' and h.name is None and len(h.body) == 1):
+        return None
+    slot = None
+    if isinstance(b, ast.AugAssign) and isinstance(b.target, ast.Subscript) and _pure(b.target.value) and _pure(b.target.slice) \
+            and _pure(b.value):
+        slot = b.target
+    elif isinstance(b, ast.Expr) and isinstance(b.value, ast.Call) and isinstance(b.value.func, ast.Attribute) \
+            and b.value.func.attr in ('append', 'add') and isinstance(b.value.func.value, ast.Subscript) \
+            and _pure(b.value.func.value) and len(b.value.args) == 1 and _pure(b.value.args[0]):
+        slot = b.value.func.value
+    if slot is None:
+        return None
+    d = h.body[0]
+    if not (isinstance(d, ast.Assign) and len(d.targets) == 1 and isinstance(d.targets[0], ast.Subscript)
+            and ast.dump(ast.Subscript(value=d.targets[0].value, slice=d.targets[0].slice, ctx=ast.Load()))
+            == ast.dump(ast.Subscript(value=slot.value, slice=slot.slice, ctx=ast.Load())) and _pure(d.value)):
+        return None
+    # the KeyError can only come from the slot itself: the container expression must not subscript another dictionary by a key
+    # that may be missing ... accept names, attributes and subscripts of names (nested tables are created before in this code)
+    test = _loc(ast.Compare(left=copy.deepcopy(slot.slice), ops=[ast.In()], comparators=[copy.deepcopy(slot.value)]), st)
+    return [_loc(ast.If(test=test, body=[copy.deepcopy(b)], orelse=[copy.deepcopy(d)]), st)]
+
+
 def _n21_whiletrue(st):
     if not (isinstance(st, ast.While) and isinstance(st.test, ast.Constant) and st.test.value is True and not st.orelse
             and len(st.body) >= 2 and isinstance(st.body[0], ast.If) and not st.body[0].orelse
@@ -455,6 +505,97 @@ def _n21_whiletrue(st):
         return None
     neg = c.operand if isinstance(c, ast.UnaryOp) and isinstance(c.op, ast.Not) else _loc(ast.UnaryOp(op=ast.Not(), operand=c), c)
     return [_loc(ast.While(test=neg, body=st.body[1:], orelse=[]), st)]
+
+
+def _n27_filterloop(func):
+    """N27  for x in filter(P, it): B   ->   for x in it: if P(x): B     (P a lambda, None, or a one-line local function;
+    itertools.filterfalse likewise with the negation).  filter() is lazy: P runs between the iterations exactly as the `if`."""
+    local_defs = {}
+    for lst in _stmt_lists(func):
+        for s in lst:
+            if isinstance(s, ast.FunctionDef) and s is not func:
+                local_defs.setdefault(s.name, []).append((lst, s))
+    def _cond_of(P, x):
+        if isinstance(P, ast.Constant) and P.value is None:
+            return ast.Name(id=x, ctx=ast.Load())
+        if isinstance(P, ast.Lambda) and len(P.args.args) == 1 and not (P.args.defaults or P.args.vararg or P.args.kwarg
+                                                                       or P.args.kwonlyargs or P.args.posonlyargs):
+            return _Subst({P.args.args[0].arg: ast.Name(id=x, ctx=ast.Load())}).visit(copy.deepcopy(P.body))
+        return None
+    # list(filter(lambda v: c, it))  ->  [v for v in it if c]   (both build the whole list at once)
+    for c_ in ast.walk(func):
+        if isinstance(c_, ast.Call) and isinstance(c_.func, ast.Name) and c_.func.id in ('list', 'tuple', 'sorted', 'set') \
+                and c_.args and isinstance(c_.args[0], ast.Call) and ast.unparse(c_.args[0].func) == 'filter' \
+                and len(c_.args[0].args) == 2 and not c_.args[0].keywords and isinstance(c_.args[0].args[0], ast.Lambda):
+            P, it = c_.args[0].args
+            if len(P.args.args) == 1 and not (P.args.defaults or P.args.vararg or P.args.kwarg or P.args.kwonlyargs
+                                              or P.args.posonlyargs):
+                v = P.args.args[0].arg
+                comp = ast.ListComp(elt=ast.Name(id=v, ctx=ast.Load()), generators=[ast.comprehension(
+                    target=ast.Name(id=v, ctx=ast.Store()), iter=it, ifs=[P.body], is_async=0)])
+                ast.copy_location(comp, c_.args[0])
+                if c_.func.id == 'list' and len(c_.args) == 1 and not c_.keywords:
+                    # the call node itself becomes the comprehension
+                    c_.__class__ = ast.ListComp
+                    c_.__dict__.clear()
+                    c_.__dict__.update(comp.__dict__)
+                else:
+                    c_.args[0] = comp
+                ast.fix_missing_locations(func)
+                return True
+    for g in ast.walk(func):
+        if isinstance(g, ast.comprehension) and isinstance(g.target, ast.Name) and isinstance(g.iter, ast.Call) \
+                and len(g.iter.args) == 2 and not g.iter.keywords and not g.is_async \
+                and ast.unparse(g.iter.func) in ('filter', 'itertools.filterfalse', 'filterfalse'):
+            cond = _cond_of(g.iter.args[0], g.target.id)
+            if cond is None:
+                continue
+            if ast.unparse(g.iter.func) != 'filter':
+                cond = ast.UnaryOp(op=ast.Not(), operand=cond)
+            ast.copy_location(cond, g.iter)
+            g.ifs.insert(0, cond)
+            g.iter = g.iter.args[1]
+            ast.fix_missing_locations(g)
+            return True
+    for lst in _stmt_lists(func):
+        for st in lst:
+            if not (isinstance(st, ast.For) and isinstance(st.target, ast.Name) and isinstance(st.iter, ast.Call)
+                    and len(st.iter.args) == 2 and not st.iter.keywords):
+                continue
+            fn = ast.unparse(st.iter.func)
+            if fn not in ('filter', 'itertools.filterfalse', 'filterfalse'):
+                continue
+            P, it = st.iter.args
+            x = st.target.id
+            cond = None
+            drop = None
+            if isinstance(P, ast.Constant) and P.value is None:
+                cond = ast.Name(id=x, ctx=ast.Load())
+            elif isinstance(P, ast.Lambda) and len(P.args.args) == 1 and not (P.args.defaults or P.args.vararg or P.args.kwarg
+                                                                             or P.args.kwonlyargs or P.args.posonlyargs):
+                cond = _Subst({P.args.args[0].arg: ast.Name(id=x, ctx=ast.Load())}).visit(copy.deepcopy(P.body))
+            elif isinstance(P, ast.Name) and len(local_defs.get(P.id, ())) == 1:
+                dl, d = local_defs[P.id][0]
+                body = [b for b in d.body if not (isinstance(b, ast.Expr) and isinstance(b.value, ast.Constant))]
+                a = d.args
+                if len(body) == 1 and isinstance(body[0], ast.Return) and body[0].value is not None and len(a.args) == 1 \
+                        and not (a.defaults or a.vararg or a.kwarg or a.kwonlyargs or a.posonlyargs or d.decorator_list) \
+                        and not any(isinstance(y, (ast.Yield, ast.YieldFrom, ast.NamedExpr, ast.Lambda)) for y in ast.walk(body[0])):
+                    cond = _Subst({a.args[0].arg: ast.Name(id=x, ctx=ast.Load())}).visit(copy.deepcopy(body[0].value))
+                    uses = sum(1 for y in ast.walk(func) if isinstance(y, ast.Name) and y.id == P.id)
+                    if uses == 1 and len(dl) > 1:
+                        drop = (dl, d)
+            if cond is None:
+                continue
+            if fn != 'filter':
+                cond = ast.UnaryOp(op=ast.Not(), operand=cond)
+            st.iter = it
+            st.body = [_loc(ast.If(test=_loc(cond, st), body=st.body, orelse=[]), st)]
+            ast.fix_missing_locations(st)
+            if drop:
+                drop[0].remove(drop[1])
+            return True
+    return False
 
 
 def _n13_annassign(st):
@@ -515,9 +656,10 @@ def _expr_helpers(tree, public_ok=None):
     return out
 
 
-def _stmt_helpers(tree, external):
+def _stmt_helpers(tree, external, defs=None):
     """Module-level functions that are plain statement sequences (no value returned, no loop, not recursive),
-    called only directly and only inside this module: N10 inlines them at their call statements."""
+    called only directly and only inside this module: N10 inlines them at their call statements.
+    With `defs` (the nested function definitions of function `tree`): the same for local closures."""
     out = {}
     refs = {}
     calls = {}
@@ -526,7 +668,7 @@ def _stmt_helpers(tree, external):
             refs[n.id] = refs.get(n.id, 0) + 1
         if isinstance(n, ast.Call) and isinstance(n.func, ast.Name):
             calls[n.func.id] = calls.get(n.func.id, 0) + 1
-    for st in tree.body:
+    for st in (tree.body if defs is None else defs):
         if not isinstance(st, ast.FunctionDef) or st.name in external or st.decorator_list:
             continue
         a = st.args
@@ -554,11 +696,29 @@ def _stmt_helpers(tree, external):
     return out
 
 
-def _n10_inline_stmt(st, helpers, caller_locals):
+def _closure_helpers(func):
+    """Local functions of `func` that are plain statement sequences, bound once and only ever called as statements."""
+    defs = []
+    for lst in _stmt_lists(func):
+        defs += [s for s in lst if isinstance(s, ast.FunctionDef) and s is not func]
+    if not defs:
+        return {}
+    stores = {}
+    for n in ast.walk(func):
+        if isinstance(n, ast.Name) and not isinstance(n.ctx, ast.Load):
+            stores[n.id] = stores.get(n.id, 0) + 1
+        if isinstance(n, ast.arg):
+            stores[n.arg] = stores.get(n.arg, 0) + 1
+    names = [d.name for d in defs]
+    defs = [d for d in defs if names.count(d.name) == 1 and not stores.get(d.name)]
+    return _stmt_helpers(func, set(), defs)
+
+
+def _n10_inline_stmt(st, helpers, caller_locals, closure=False):
     if not (isinstance(st, ast.Expr) and isinstance(st.value, ast.Call) and isinstance(st.value.func, ast.Name)):
         return None
     c = st.value
-    if c.func.id not in helpers or c.func.id in caller_locals:
+    if c.func.id not in helpers or (c.func.id in caller_locals and not closure):
         return None
     h, body = helpers[c.func.id]
     params = [a.arg for a in h.args.args]
@@ -580,7 +740,7 @@ def _n10_inline_stmt(st, helpers, caller_locals):
                     counts[x.id] += 1
                 elif x.id not in assigned:
                     free.add(x.id)
-    if free & caller_locals:
+    if free & caller_locals and not closure:
         return None               # a module-level name of the helper is shadowed in the caller
     pre = []
     mapping = {}
@@ -1301,6 +1461,15 @@ def normalise(tree, ctx=None, mname='', aliases=None, enabled=None):
                 if _block_rewrite(func, lambda s_: _n10_inline_stmt(s_, shelpers, loc_)):
                     bump('N10')
                     changed = True
+            if on('N10') and _round < 3:
+                ch_ = _closure_helpers(func)
+                if ch_ and _block_rewrite(func, lambda s_: _n10_inline_stmt(s_, ch_, set(), closure=True)):
+                    bump('N10c')
+                    changed = True
+                    for lst_ in _stmt_lists(func):
+                        for d_ in [x_ for x_ in lst_ if isinstance(x_, ast.FunctionDef) and x_.name in ch_]:
+                            if len(lst_) > 1 and not any(isinstance(y_, ast.Name) and y_.id == d_.name for y_ in ast.walk(func)):
+                                lst_.remove(d_)
             if sigs and _round == 0:
                 pz = _Positional(sigs, mname, aliases, _locals_of(func))
                 pz.visit(func)
@@ -1313,6 +1482,12 @@ def normalise(tree, ctx=None, mname='', aliases=None, enabled=None):
                 if inl.done:
                     bump('N5')
                     changed = True
+            if on('N27'):
+                k = 0
+                while k < 20 and _n27_filterloop(func):
+                    bump('N27')
+                    changed = True
+                    k += 1
             if on('N19'):
                 k = 0
                 while k < 20 and _n19_collect(func):
@@ -1333,6 +1508,12 @@ def normalise(tree, ctx=None, mname='', aliases=None, enabled=None):
                     k += 1
             if on('N24') and _round < 3 and _n24_kwsets(func):
                 bump('N24')
+                changed = True
+            if on('N26') and _block_rewrite(func, _n26_trykey_update):
+                bump('N26')
+                changed = True
+            if on('N25') and _block_rewrite(func, _n25_trykey):
+                bump('N25')
                 changed = True
             if on('N21') and _block_rewrite(func, _n21_whiletrue):
                 bump('N21')
